@@ -14,7 +14,8 @@ RULE = ("single lines enumerated exhaustively over the 15-class alphabet up to t
 SHAPES = ["", "# c", "<a>", "<a n>", "<A  N >", "<a/>", "<a n/>", "<a/ >", "</a>", "</A >", "</b>", "<b>", "k v", "k", "k  v  w ",
           "K V", "k $$v", "%define x y", "%define X", "%import p.q", "%include f", "%bogus x", "%define", "%", "<", "<a", "a>",
           "</", "<>", "</>", "<a b c>", "(k) v", "k(x) v", "<a (b)>", "\x0c", "k\x0bv", "é ü", "<é>", "</é>", "$x y", "k $x", "k ${x",
-          "<Item Stra\u00dfe>", "</ITEM>", "<K\u00dcCHE \u00c9cole/>", "<\u0414\u043e\u043c \u017f>"]
+          "<Item Stra\u00dfe>", "</ITEM>", "<K\u00dcCHE \u00c9cole/>", "<\u0414\u043e\u043c \u017f>",
+          "% define x y", "%\tinclude f", "%Define x y", "k v\x0cw", "# c\x0c k v", "k a\u2028b", "k a\x85b"]
 
 
 class RecSection:
@@ -57,6 +58,34 @@ def real_rec(lines, url=None):
     except Exception as e:
         return ["internal", type(e).__name__]
     return ["ok", ctx.log]
+
+
+def real_rec_path(lines):
+    """the same text written to a file and read the way loadConfig reads a path or URL (BaseLoader.openResource): the parser must
+    see the same lines (a line ends at '\\n' only: form feeds, vertical tabs, NEL, U+2028 ... inside a line stay inside it)"""
+    import os
+    import tempfile
+    import ZConfig
+    from ZConfig.cfgparser import ZConfigParser
+    from ZConfig.loader import ConfigLoader
+    ctx = RecContext()
+    fd, path = tempfile.mkstemp(prefix="zcv-c03-", suffix=".conf", dir="/dev/shm" if os.path.isdir("/dev/shm") else None)
+    try:
+        with os.fdopen(fd, "w", encoding="utf-8", newline="") as f:
+            f.write("".join(l + "\n" for l in lines))
+        sch = ZConfig.loadSchemaFile(io.StringIO("<schema/>"))
+        try:
+            ld = ConfigLoader(sch)
+            with ld.openResource(ld.normalizeURL(path)) as r:
+                ZConfigParser(r, ctx).parse(RecSection(ctx.log))
+        except ZConfig.ConfigurationError as e:
+            from ..cfgrun import classify_exc
+            return classify_exc(e)[:3]
+        except Exception as e:
+            return ["internal", type(e).__name__]
+        return ["ok", ctx.log]
+    finally:
+        os.unlink(path)
 
 
 def canon_rec(a):
@@ -133,7 +162,7 @@ def run(ctx):
     nlines = 4 if ctx.thorough() else 3
     # 1. single lines
     singles = list(util.enum_strings(ALPHA, maxlen)) + ["%define a b", "%import a", "%include a", "%define  a   b c ", "%DEFINE a b",
-                                                         "%definea b", "< a>", "<a >", "<a  b >", "<a b/>", "<a b />", "<a/b>", "<a//>"]
+                                                         "%definea b", "% define a b", "%\tdefine a b", "%  import p", "% include f", "%Define a b", "%Include f", "%IMPORT p", "< a>", "<a >", "<a  b >", "<a b/>", "<a b />", "<a/b>", "<a//>"]
     # directive-name probes: every word that could be mistaken for a directive because the parser has a method for it
     from ZConfig.cfgparser import ZConfigParser
     words = sorted({n[len("handle_"):] for n in dir(ZConfigParser) if n.startswith("handle_")} |
@@ -207,6 +236,18 @@ def run(ctx):
                 if (mrec[0] == "ok") != (r[0] == "ok") or (r[0] == "ok" and mrec[1] != r[1]):
                     ctx.violate("text %r: parser gives %r, the grammar gives %r" % (t, r, mrec), {"lines": t, "impl": r, "model": mrec},
                                 signature="C03:text:%s-vs-%s" % (r[0], mrec[0]))
+    # 3. the same texts read from a FILE the way a path or URL is read: line by line means '\n' by '\n'
+    exotic = [t for t in texts if any(c in l for l in t for c in "\x0b\x0c\x1c\x1d\x1e\x85\u2028\u2029\r")]
+    sample = exotic[:300] + texts[:: max(1, len(texts) // 300)] + [["k " + "v" * 5000], ["<a>", "    k " + "w" * 9000 + " tail", "</a>"],
+                                                                       ["# " + "c" * 4090 + " k v"], ["k a\rb"], ["k v\r"]]
+    for t in sample:
+        r1, r2 = real_rec(t), real_rec_path(t)
+        ctx.evaluations += 1
+        ctx.count("by-path:" + r2[0])
+        if r1 != r2:
+            ctx.violate("text %r read from a file (openResource) is parsed as %r, the same text from a stream as %r" % (t, r2, r1),
+                        {"lines": t, "by_path": r2, "from_stream": r1}, signature="C03:by-path-differs")
+            break
     ctx.cov["exhaustive"] = True
     ctx.cov["enumeration"] = {"alphabet": ALPHA, "maxlen": maxlen, "single_lines": len(singles), "texts": len(texts), "shapes": len(SHAPES)}
     ctx.sample({"line": singles[len(singles) // 2], "impl": real_rec([singles[len(singles) // 2]])})
